@@ -10,7 +10,7 @@ def run_c12(prop, tier, seed, replay=None):
     core.cargo_build()
     if replay:
         rp = json.load(open(replay))
-        if rp.get("runner") == "replay-sample":
+        if "line" in rp["instance"]:
             from . import p_sample
             return p_sample.run(prop, tier, seed, replay)
         tp = os.path.join(wd, "in.ndjson")
